@@ -204,6 +204,20 @@ CLAIMS = {
         technique="must-fact dataflow, symbolic path enumeration of the ring writer, inductive field invariant, token-walk "
                   "derived message bound",
         design="5 C20"),
+    "C11": dict(
+        text="Small clause-level claim; the substance of the property (behaviour of the negotiated configuration through a family "
+             "of relays) is a run-time quantity and is NOT decided. Decided are necessary table and ordering facts: each upstream "
+             "probe pattern fits one label and the patterns of a codec contain every character that distinguishes it from Base32; "
+             "an upstream result is returned only after every pattern of that codec was tested with a positive result and selects "
+             "exactly that codec on both ends; a downstream codec letter is returned only after the test of that very letter "
+             "succeeded (flags are set only under their own test); the server serves the codec check for every documented (record "
+             "type, codec) pair, which covers every pair the client probes during type autodetection; a codec switch is committed "
+             "only after a non-error reply; the fragment-size probe generator and checker share their constants; no negotiated "
+             "parameter (EDNS0 use, codecs, query type, name limit) is written after the fragment size was probed. Found and now "
+             "guards the repair of the PRIVATE/Raw codec-check gap.",
+        technique="table agreement by reachability under fixed discriminants, must-fact dataflow for tested-before-selected, "
+                  "CFG reachability after the probe",
+        design="5 C11"),
 }
 
 NA = {
